@@ -254,9 +254,19 @@ class ASTXpath:
         Use of this file is governed by the BSD 3-clause license that
         can be found in the LICENSE.txt file in the project root.
         """
+        dummy_root = _DUMMY_XPATH_ROOT(root)
+
+        def _unwrap(
+            c_info: _NodeTraversalInfo | NodeTraversalInfo,
+        ) -> _NodeTraversalInfo | NodeTraversalInfo:
+            # The root has no parent, field or index (the dummy root is an implementation detail)
+            if c_info.parent is dummy_root:
+                return _NodeTraversalInfo(c_info.node, None, None, None)
+            return c_info
+
         # Using dict, because set is not ordered
         work: dict[_NodeTraversalInfo | NodeTraversalInfo, None] = {
-            _NodeTraversalInfo(_DUMMY_XPATH_ROOT(root), None, None, None): None
+            _NodeTraversalInfo(dummy_root, None, None, None): None
         }
 
         for el in self._elements:
@@ -264,7 +274,7 @@ class ASTXpath:
 
             for n_info in work:
                 if el.anywhere:
-                    for c_info in n_info.node.dfs():
+                    for c_info in map(_unwrap, n_info.node.dfs()):
                         if _match_node_element(c_info, el):
                             # Insert into our "ordered set" only if not already in there
                             # this is to prefer first insertion order
@@ -272,7 +282,7 @@ class ASTXpath:
                                 new_work[c_info] = None
                 else:
                     for c, f, i in n_info.node.get_child_nodes_with_field():
-                        c_info = NodeTraversalInfo(c, n_info.node, f, i)
+                        c_info = _unwrap(NodeTraversalInfo(c, n_info.node, f, i))
                         if _match_node_element(c_info, el):
                             if c_info not in new_work:
                                 new_work[c_info] = None
